@@ -805,3 +805,275 @@ Proof.
   unfold out_tr, btr in H. rewrite Forall_forall in H. specialize (H g Hg).
   rewrite Forall_forall in H. exact (H rb Hb).
 Qed.
+
+(* ================================================================ C09: maximal merging when no limit binds *)
+
+(* the conversion without any overflow: one output file per out-file of the state,
+   holding one batch per stored batch, numbered consecutively *)
+Fixpoint numbered (bn : Z) (bs : list obatch) : list rbatch :=
+  match bs with
+  | [] => []
+  | b :: r =>
+      match map snd (ob_entries b) with
+      | [] => []
+      | e :: es => [mkRBatch (bn + 1) (ob_header b) (e :: es)]
+      end ++ numbered (bn + 1) r
+  end.
+
+Definition plain_step (acc : list rfile * Z) (o : ofile) : list rfile * Z :=
+  (close_file o (numbered (snd acc) (of_batches o)) (fst acc), snd acc + Z.of_nat (length (of_batches o))).
+
+Definition plain (st : list ofile) : list rfile := fst (fold_left plain_step st ([], 0)).
+
+Definition ob_list (b : obatch) : list entry := map snd (ob_entries b).
+Definition ob_lines (b : obatch) : Z := 2 + zsum (map entry_lines (ob_list b)).
+Definition ob_amount (b : obatch) : Z := zsum (map e_amount (ob_list b)).
+
+(* "no limit binds" for one out-file of the state: its whole content fits *)
+Definition fits (c : conds) (M : Z) (o : ofile) : Prop :=
+  (0 < maxLines c -> 2 + zsum (map ob_lines (of_batches o)) <= maxLines c) /\
+  (0 < M -> zsum (map ob_amount (of_batches o)) <= M).
+
+Definition entry_nonneg (e : entry) : Prop := 0 <= e_addenda e /\ 0 <= e_amount e.
+Definition ofile_nonneg (o : ofile) : Prop := Forall (fun b => Forall entry_nonneg (ob_list b)) (of_batches o).
+
+Lemma zsum_lines_nonneg es : Forall entry_nonneg es -> 0 <= zsum (map entry_lines es).
+Proof.
+  induction 1 as [|e es [Ha _] _ IH]; cbn [map zsum fold_right]; [lia|]. fold (zsum (map entry_lines es)).
+  unfold entry_lines at 1. lia.
+Qed.
+
+Lemma zsum_amount_nonneg es : Forall entry_nonneg es -> 0 <= zsum (map e_amount es).
+Proof.
+  induction 1 as [|e es [_ Ha] _ IH]; cbn [map zsum fold_right]; [lia|]. fold (zsum (map e_amount es)). lia.
+Qed.
+
+Lemma entries_noover c M o h es : forall s,
+  Forall entry_nonneg es ->
+  (0 < maxLines c -> c_L s + zsum (map entry_lines es) <= maxLines c) ->
+  (0 < M -> c_D s + zsum (map e_amount es) <= M) ->
+  fold_left (step_entry c M o h) es s
+  = mkC (c_out s) (c_file s) (c_bent s ++ es) (c_L s + zsum (map entry_lines es)) (c_D s + zsum (map e_amount es)) (c_bn s).
+Proof.
+  induction es as [|e es IH]; intros s Hnn HL HD; cbn [fold_left map zsum fold_right].
+  - rewrite app_nil_r, !Z.add_0_r. destruct s; reflexivity.
+  - cbn [map zsum fold_right] in HL, HD. fold (zsum (map entry_lines es)) in *. fold (zsum (map e_amount es)) in *.
+    inversion Hnn as [|? ? He Hes]; subst.
+    pose proof (zsum_lines_nonneg es Hes) as P1. pose proof (zsum_amount_nonneg es Hes) as P2.
+    destruct He as [He1 He2]. unfold entry_lines at 1 in HL.
+    assert (Hex : exceeds c M (c_L s) (c_D s) e = false) by (unfold exceeds; lia).
+    unfold step_entry at 2. rewrite Hex. rewrite IH; cbn [c_out c_file c_bent c_L c_D c_bn]; try assumption; try lia.
+    rewrite <- app_assoc. cbn [app]. unfold entry_lines at 2. f_equal; lia.
+Qed.
+
+Lemma batches_noover c M o bs : forall s,
+  c_bent s = [] ->
+  Forall (fun b => Forall entry_nonneg (ob_list b)) bs ->
+  (0 < maxLines c -> c_L s + zsum (map ob_lines bs) <= maxLines c) ->
+  (0 < M -> c_D s + zsum (map ob_amount bs) <= M) ->
+  fold_left (step_batch c M o) bs s
+  = mkC (c_out s) (c_file s ++ numbered (c_bn s) bs) [] (c_L s + zsum (map ob_lines bs))
+        (c_D s + zsum (map ob_amount bs)) (c_bn s + Z.of_nat (length bs)).
+Proof.
+  induction bs as [|b bs IH]; intros s Hb Hnn HL HD.
+  - cbn [fold_left numbered map zsum fold_right length Z.of_nat]. rewrite app_nil_r, !Z.add_0_r.
+    destruct s; cbn in Hb; subst; reflexivity.
+  - cbn [fold_left map zsum fold_right] in *. fold (zsum (map ob_lines bs)) in *. fold (zsum (map ob_amount bs)) in *.
+    inversion Hnn as [|? ? Hb0 Hbs]; subst.
+    pose proof (zsum_lines_nonneg _ Hb0) as P1. pose proof (zsum_amount_nonneg _ Hb0) as P2.
+    assert (Q1 : 0 <= zsum (map ob_lines bs)).
+    { clear -Hbs. induction Hbs as [|x l Hx _ IHl]; cbn [map zsum fold_right]; [lia|].
+      fold (zsum (map ob_lines l)). pose proof (zsum_lines_nonneg _ Hx). unfold ob_lines at 1. lia. }
+    assert (Q2 : 0 <= zsum (map ob_amount bs)).
+    { clear -Hbs. induction Hbs as [|x l Hx _ IHl]; cbn [map zsum fold_right]; [lia|].
+      fold (zsum (map ob_amount l)). pose proof (zsum_amount_nonneg _ Hx). unfold ob_amount at 1. lia. }
+    unfold ob_lines at 1 in HL. unfold ob_amount at 1 in HD.
+    unfold step_batch at 2. fold (ob_list b).
+    rewrite entries_noover; cbn [c_out c_file c_bent c_L c_D c_bn app]; try assumption; try lia.
+    rewrite IH; cbn [c_out c_file c_bent c_L c_D c_bn]; try reflexivity; try assumption.
+    + unfold close_batch. cbn [c_bent c_file c_bn numbered]. fold (ob_list b).
+      unfold ob_lines at 2, ob_amount at 2. cbn [length].
+      destruct (ob_list b) as [|e es]; cbn [app]; [f_equal; try lia; now rewrite app_nil_r|].
+      rewrite <- app_assoc. cbn [app]. f_equal; lia.
+    + intros Hp. specialize (HL Hp). lia.
+    + intros Hp. specialize (HD Hp). lia.
+Qed.
+
+Lemma step_file_noover c M acc o :
+  fits c M o -> ofile_nonneg o -> step_file c M acc o = plain_step acc o.
+Proof.
+  intros [HL HD] Hnn. unfold step_file, plain_step.
+  rewrite batches_noover; cbn [c_out c_file c_bent c_L c_D c_bn app]; try reflexivity; try assumption.
+Qed.
+
+Lemma convert_noover c st :
+  Forall (fun o => fits c (effective_dollar c) o /\ ofile_nonneg o) st -> convert c st = plain st.
+Proof.
+  unfold convert, plain. generalize (@nil rfile, 0) as acc.
+  induction st as [|o st IH]; intros acc H; cbn [fold_left]; [reflexivity|].
+  inversion H as [|? ? [Hf Hn] Hst]; subst. rewrite step_file_noover by assumption. now apply IH.
+Qed.
+
+(* ---- the tree-map state: one out-file per routing pair *)
+
+Lemma same_route_false o f : same_route o f = false -> of_route o <> if_route f.
+Proof.
+  unfold same_route, of_route, if_route. intros H Heq. injection Heq as H1 H2.
+  assert (bytes_eqb (if_origin f) (of_origin o) = true) as E1 by (apply bytes_eqb_eq; congruence).
+  assert (bytes_eqb (if_dest f) (of_dest o) = true) as E2 by (apply bytes_eqb_eq; congruence).
+  rewrite E1, E2 in H. discriminate.
+Qed.
+
+Lemma add_file_routes st f :
+  (In (if_route f) (map of_route st) /\ map of_route (add_file st f) = map of_route st) \/
+  (~ In (if_route f) (map of_route st) /\ map of_route (add_file st f) = map of_route st ++ [if_route f]).
+Proof.
+  induction st as [|o r IH]; cbn [add_file map app].
+  - right. split; [intros []|reflexivity].
+  - destruct (same_route o f) eqn:Hs.
+    + left. split; [left; now apply same_route_eq|]. reflexivity.
+    + apply same_route_false in Hs. destruct IH as [[Hin Heq]|[Hnin Heq]].
+      * left. split; [now right|]. cbn [map]. now rewrite Heq.
+      * right. split; [intros [H|H]; [now apply Hs|now apply Hnin]|]. cbn [map]. now rewrite Heq.
+Qed.
+
+Lemma build_state_routes fs : NoDup (map of_route (build_state fs)).
+Proof.
+  unfold build_state. destruct fs as [|f0 fs']; [constructor|].
+  assert (H : NoDup (map of_route [new_ofile f0])) by (cbn; constructor; [intros []|constructor]).
+  revert H. generalize [new_ofile f0] as st. generalize (f0 :: fs') as fs.
+  induction fs as [|f fs IH]; intros st H; cbn [fold_left]; [exact H|]. apply IH.
+  destruct (add_file_routes st f) as [[_ ->]|[Hnin ->]]; [exact H|].
+  eapply Permutation_NoDup; [apply Permutation_cons_append|]. now constructor.
+Qed.
+
+(* ---- the tree-map state: batches with Equal headers exist only because traces collide *)
+
+(* b was not merged into the earlier batch a although the headers are Equal: every trace
+   number of b is already present in a *)
+Definition collides (a b : obatch) : Prop :=
+  header_equal (ob_header a) (ob_header b) = true ->
+  forall k, tm_contains k (ob_entries b) = true -> tm_contains k (ob_entries a) = true.
+
+Definition coll_ok (bs : list obatch) : Prop := ForallOrdPairs collides bs.
+
+Lemma header_equal_trans a b c :
+  header_equal a b = true -> header_equal b c = true -> header_equal a c = true.
+Proof. rewrite !header_equal_hkey. congruence. Qed.
+
+Lemma place_forall (Q : obatch -> Prop) h e bs :
+  Forall Q bs ->
+  (forall b, Q b -> header_equal (ob_header b) h = true ->
+             Q (mkOBatch (ob_header b) (tm_set (e_trace e) e (ob_entries b)))) ->
+  Q (mkOBatch h (tm_set (e_trace e) e [])) ->
+  Forall Q (place h e bs).
+Proof.
+  intros Hbs Hupd Hnew. induction Hbs as [|b r Hb Hr IH]; cbn [place].
+  - constructor; [exact Hnew|constructor].
+  - destruct (header_equal (ob_header b) h && negb (tm_contains (e_trace e) (ob_entries b))) eqn:Hc.
+    + apply andb_prop in Hc as [Hh _]. constructor; [now apply Hupd|exact Hr].
+    + constructor; [exact Hb|exact IH].
+Qed.
+
+Lemma place_coll h e bs : coll_ok bs -> coll_ok (place h e bs).
+Proof.
+  unfold coll_ok. induction 1 as [|a l Ha Hl IH]; cbn [place].
+  - constructor; [constructor|constructor].
+  - destruct (header_equal (ob_header a) h && negb (tm_contains (e_trace e) (ob_entries a))) eqn:Hc.
+    + (* inserted into a: a only grows *)
+      constructor; [|exact Hl]. eapply Forall_impl; [|exact Ha]. intros x Hx. unfold collides in *.
+      cbn [ob_header ob_entries]. intros Hh k Hk. rewrite tm_contains_set. rewrite (Hx Hh k Hk). apply orb_true_r.
+    + (* a skipped: Equal header implies a already holds the trace *)
+      assert (Hskip : header_equal (ob_header a) h = true -> tm_contains (e_trace e) (ob_entries a) = true).
+      { intros Hh. rewrite Hh in Hc. cbn in Hc. now apply negb_false_iff in Hc. }
+      constructor; [|exact IH]. apply place_forall; [exact Ha| |].
+      * intros b Hb Hbh. unfold collides in *. cbn [ob_header ob_entries]. intros Hab k Hk.
+        rewrite tm_contains_set in Hk. apply orb_prop in Hk as [Hk|Hk]; [|now apply Hb].
+        apply is_eq_true, bcmp_eq in Hk. subst k. apply Hskip. eapply header_equal_trans; eassumption.
+      * unfold collides. cbn [ob_header ob_entries tm_set tm_contains]. intros Hah k Hk.
+        rewrite orb_false_r in Hk. apply is_eq_true, bcmp_eq in Hk. subst k. now apply Hskip.
+Qed.
+
+Definition batches_nonempty (bs : list obatch) : Prop := Forall (fun b => ob_entries b <> []) bs.
+
+Lemma tm_set_nonempty k v m : tm_set k v m <> [].
+Proof. destruct m as [|[k2 v2] r]; cbn; [discriminate|]. destruct (bcmp k k2); discriminate. Qed.
+
+Lemma place_nonempty h e bs : batches_nonempty bs -> batches_nonempty (place h e bs).
+Proof.
+  intros H. apply place_forall; [exact H| |]; intros; cbn [ob_entries]; apply tm_set_nonempty.
+Qed.
+
+Definition batches_good (bs : list obatch) : Prop := coll_ok bs /\ batches_nonempty bs.
+
+Lemma add_to_good o f : batches_good (of_batches o) -> batches_good (of_batches (add_to o f)).
+Proof.
+  unfold add_to. cbn [of_batches]. generalize (of_batches o) as bs.
+  induction (if_batches f) as [|ib ibs IH]; intros bs H; cbn [fold_left]; [exact H|]. apply IH.
+  unfold add_batch. revert bs H. induction (ib_entries ib) as [|e es IHe]; intros bs H; cbn [fold_left]; [exact H|].
+  apply IHe. destruct H as [H1 H2]. split; [now apply place_coll|now apply place_nonempty].
+Qed.
+
+Lemma add_file_good st f :
+  Forall (fun o => batches_good (of_batches o)) st -> Forall (fun o => batches_good (of_batches o)) (add_file st f).
+Proof.
+  induction st as [|o r IH]; cbn [add_file]; intros H.
+  - constructor; [|constructor]. apply add_to_good. split; constructor.
+  - inversion H as [|? ? Ho Hr]; subst. destruct (same_route o f).
+    + constructor; [now apply add_to_good|exact Hr].
+    + constructor; auto.
+Qed.
+
+Lemma build_state_good fs : Forall (fun o => batches_good (of_batches o)) (build_state fs).
+Proof.
+  unfold build_state. destruct fs as [|f0 fs']; [constructor|].
+  assert (H : Forall (fun o => batches_good (of_batches o)) [new_ofile f0]).
+  { constructor; [split; constructor|constructor]. }
+  revert H. generalize [new_ofile f0] as st. generalize (f0 :: fs') as fs.
+  induction fs as [|f fs IH]; intros st H; cbn [fold_left]; [exact H|]. apply IH, add_file_good, H.
+Qed.
+
+(* When no limit binds on the merged content: the result is the plain conversion of a state
+   that has one out-file per routing pair, whose Equal-header batches all collide on traces. *)
+Lemma merge_maximal fs c :
+  Forall (fun o => fits c (effective_dollar c) o /\ ofile_nonneg o) (build_state fs) ->
+  merge_files fs c = plain (build_state fs) /\
+  NoDup (map of_route (build_state fs)) /\
+  Forall (fun o => coll_ok (of_batches o) /\ batches_nonempty (of_batches o)) (build_state fs).
+Proof.
+  intros H. split; [now apply convert_noover|]. split; [apply build_state_routes|apply build_state_good].
+Qed.
+
+(* what "collides" means on trace numbers: membership of the key *)
+Lemma tm_contains_in k m : tm_contains k m = true <-> exists v, In (k, v) m.
+Proof.
+  induction m as [|[k2 v2] r IH]; cbn [tm_contains].
+  - split; [discriminate|intros [v []]].
+  - rewrite orb_true_iff, IH, is_eq_true, bcmp_eq. split.
+    + intros [->|[v Hv]]; [exists v2; now left|exists v; now right].
+    + intros [v [Hv|Hv]]; [left; congruence|right; now exists v].
+Qed.
+
+(* ================================================================ C09: validity, relative to the validator *)
+
+Section Validity.
+  (* [entry_ok k e]: entry e is admissible in a batch whose header has identity key k (transaction
+     code against service class, SEC specific entry rules, trace prefix = ODFI, ...);
+     [batch_valid h es]: Batch.Create succeeds on header h with entries es and the result validates.
+     Both belong to the validator model (C03/C06); here they are parameters. *)
+  Variable entry_ok : hkey_t -> entry -> Prop.
+  Variable batch_valid : header -> list entry -> Prop.
+  Hypothesis batch_valid_intro : forall h es,
+    es <> [] -> tasc es -> (forall e, In e es -> entry_ok (hkey h) e) -> batch_valid h es.
+
+  Lemma merge_valid_relative fs c :
+    (forall f ib e, In f fs -> In ib (if_batches f) -> In e (ib_entries ib) -> entry_ok (hkey (ib_header ib)) e) ->
+    forall g rb, In g (merge_files fs c) -> In rb (rf_batches g) -> batch_valid (rb_header rb) (rb_entries rb).
+  Proof.
+    intros Hin g rb Hg Hrb. apply batch_valid_intro.
+    - pose proof (merge_limits fs c g Hg) as (_ & _ & _ & Hne). rewrite Forall_forall in Hne. now apply Hne.
+    - eapply merge_traces; eassumption.
+    - intros e He. destruct (merge_no_mixing fs c g rb e Hg Hrb He) as (f & ib & Hf & Hib & Hie & _ & Hk).
+      rewrite <- Hk. eapply Hin; eassumption.
+  Qed.
+End Validity.
